@@ -29,7 +29,7 @@ SPEC = {
              "misfit set"),
     "boundscheck": {"quick": False, "thorough": True},
     "case_timeout": 180.0,
-    "deciding_monitors": ["Linop.apply:checked"],
+    "deciding_monitors": ["Linop.apply:checked", "in:layout:F", "in:layout:strided", "in:complex64"],
     "assumptions": ["leaves are taken as given (their own semantics are C05-C10's subject)",
                     "CPU/numpy backend"],
 }
